@@ -111,3 +111,16 @@ class _IdentMap(dict):
 
 def ident_map():
     return _IdentMap()
+
+
+# a list used as a stack (append / pop() only): natively a Python list whose last element is the top
+def top(stack):
+    return stack[-1]
+
+
+def popped(stack):
+    return stack[:-1]
+
+
+def no_more(stack):
+    return len(stack) == 0
